@@ -582,7 +582,18 @@ def run_program(case):
     def after(batch):
         H.emit(["flushE", [getattr(batch, "kind", "?"), getattr(batch, "seq", "?")]])
 
+    def peek(batch):
+        # a handler that looks at an item's value: forces the very batch the scheduler is about to flush
+        try:
+            if batch.items:
+                batch.items[0].value()
+            H.emit(["hookpeek", "ok"])
+        except BaseException as e:
+            H.emit(["hookpeek", H.etok(e)])
+
     sched.on_before_batch_flush.subscribe(before)
+    if case.get("hook") == "peek":
+        sched.on_before_batch_flush.subscribe(peek)
     sched.on_after_batch_flush.subscribe(after)
     opts = dict(case.get("opts", {}))
     clock = opts.pop("_clock", None)
